@@ -21,7 +21,7 @@ from .. import core, hist, model
 from ..session import Outcome
 from . import PropBase, steps_with_ids
 
-FAULTS = ("clear", "clear_typing", "twin_adjacent")
+FAULTS = ("clear", "clear_typing", "twin_adjacent", "exhaust_scan")
 
 WORLD_SRC = '''
 import ipaddress, numbers, types, sqlite3, functools
@@ -343,6 +343,10 @@ class C17(PropBase):
         while pos < len(items):
             n = rng.randint(5, 40)
             steps.append({"op": "preds", "items": items[pos:pos + n], "mod": "vw0"})
+            if "exhaust_scan" in sw and rng.random() < 0.3:
+                # each pair is first asked from every stack depth at which the call cannot complete
+                # (RecursionError one frame further in each time), then at normal depth
+                steps[-1]["scan"] = True
             pos += n
             if sw.get("clear") and rng.random() < sw["clear"]:
                 steps.append({"op": "clear", "group": rng.choice(["predicates", "all"])})
@@ -359,7 +363,7 @@ class C17(PropBase):
         sess.group_answers = {}
         sess.all_items = []
 
-    def _eval_items(self, sess, items, record):
+    def _eval_items(self, sess, items, record, scan=False):
         from typelib.py import inspection
 
         gl = sess.world.modules["vw0"].__dict__
@@ -371,6 +375,8 @@ class C17(PropBase):
                 out.append(["harness-eval-error", type(ex).__name__])
                 continue
             fn = getattr(inspection, p)
+            if scan:
+                sess.scan_exhaust({"mod": "vw0"}, fn, obj, max_attempts=120)
             try:
                 if p == "get_type_hints":
                     r = fn(obj)
@@ -391,7 +397,7 @@ class C17(PropBase):
             return None
         if sess.is_cold:
             return Outcome(True, self._eval_items(sess, step["items"], None))
-        res = self._eval_items(sess, step["items"], lambda *a: self._judge(sess, i, *a))
+        res = self._eval_items(sess, step["items"], lambda *a: self._judge(sess, i, *a), scan=bool(step.get("scan")))
         sess.all_items.extend(step["items"])
         return Outcome(True, res)
 
